@@ -232,6 +232,31 @@ func (w *World) localCopyOf(arg ssa.Value, src *ssa.Parameter, at ssa.Instructio
 			}
 		case *ssa.IndexAddr:
 			if r != ia {
+				// the same array handed to a second call (two C paths): an element address that is only passed on,
+				// never stored through
+				passedOnly := true
+				var chk func(v ssa.Value, d int)
+				chk = func(v ssa.Value, d int) {
+					for _, u := range *v.Referrers() {
+						switch x := u.(type) {
+						case *ssa.Convert:
+							if d < 3 {
+								chk(x, d+1)
+							}
+						case *ssa.ChangeType:
+							if d < 3 {
+								chk(x, d+1)
+							}
+						case *ssa.Call:
+						default:
+							passedOnly = false
+						}
+					}
+				}
+				chk(r, 0)
+				if passedOnly {
+					continue
+				}
 				others++
 			}
 		default:
@@ -697,7 +722,9 @@ func ruleC02(w *World) {
 				fmt.Sprintf("len(%s) != 0", pks),
 				fmt.Sprintf("len(%s) == len(%s)", msgs, pks),
 				fmt.Sprintf("len(%s) == len(%s)", hs, msgs))
-			w.check(normReslice(render(c.Call.Args[0]), a.sigLen) == "&"+sig+"[0]", "C02.R2", key+"/arg0", c.Pos(), "signature pointer is &sig[0]", "first argument is not the signature buffer: "+render(c.Call.Args[0]))
+			// `&s[0]` itself, or a local array that a dominating copy filled from s (whose exact length is guarded above)
+			okArg := normReslice(render(c.Call.Args[0]), a.sigLen) == "&"+sig+"[0]" || w.localCopyOf(c.Call.Args[0], fn.Params[1], c, a.sigLen)
+			w.check(okArg, "C02.R2", key+"/arg0", c.Pos(), "signature pointer is &sig[0]", "first argument is not the signature buffer: "+render(c.Call.Args[0]))
 		}
 		// R7: the group count handed to C is the number of entries of the per-group arrays handed with it: either it is
 		// len() of one of them, or it is len(M) of the grouping map and every per-group array receives exactly one
@@ -1576,6 +1603,10 @@ func ruleC04(w *World) {
 				chunk := render(cc.Call.Args[1])
 				if strings.HasPrefix(chunk, sigs+"[") {
 					n++
+					if w.allElementsValidated(fn, fn.Params[0], a.sigLen, cc) {
+						w.ok("C04.R2", fnKey(fn)+"/append-sig/guard:validated-by-an-earlier-complete-loop", cc.Pos(), fmt.Sprintf("every element was tested for length %d by a complete loop that refuses on the first mismatch, before the flattening starts", a.sigLen))
+						return
+					}
 					w.requireFacts("C04.R2", fnKey(fn)+"/append-sig", cc, fmt.Sprintf("len(%s) == %d", chunk, a.sigLen))
 				}
 			}
@@ -2139,4 +2170,88 @@ func normReslice(r string, n int64) string {
 		}
 	}
 	return r
+}
+
+// allElementsValidated: before `at`, a loop over the whole slice parameter `list` has run to completion whose body
+// leaves the function with an error as soon as an element's length differs from n ("validate everything, then use"):
+// there is an If on `len(list[X]) != n` whose taken edge reaches an error return, X runs over 0..len(list)-1 (a range or
+// counted loop), and the loop's exit — not its body — dominates `at`.
+func (w *World) allElementsValidated(fn *ssa.Function, list *ssa.Parameter, n int64, at ssa.Instruction) bool {
+	for _, b := range fn.Blocks {
+		ifi, ok := b.Instrs[len(b.Instrs)-1].(*ssa.If)
+		if !ok || len(b.Succs) != 2 {
+			continue
+		}
+		bo, ok := stripConv(ifi.Cond).(*ssa.BinOp)
+		if !ok || bo.Op != token.NEQ {
+			continue
+		}
+		lc, ok := stripConv(bo.X).(*ssa.Call)
+		if !ok {
+			continue
+		}
+		bi, ok := lc.Call.Value.(*ssa.Builtin)
+		if !ok || bi.Name() != "len" {
+			continue
+		}
+		if k, isC := constOf(bo.Y); !isC || k.Value == nil {
+			continue
+		} else if v, _ := constInt64(k.Value); v != n {
+			continue
+		}
+		// the element: list[X] (an IndexAddr load) or the range value of `for _, e := range list`
+		var idx ssa.Value
+		switch e := stripConv(lc.Call.Args[0]).(type) {
+		case *ssa.UnOp:
+			if ia, ok := e.X.(*ssa.IndexAddr); ok && stripConv(ia.X) == ssa.Value(list) {
+				idx = ia.Index
+			}
+		}
+		if idx == nil {
+			continue
+		}
+		ia := affineOf(idx)
+		ph, isPhi := ia.base.(*ssa.Phi)
+		if !isPhi {
+			continue
+		}
+		first, lbase, loff, okS := inductionSpan(ph)
+		if !okS || first+ia.c != 0 || loff+ia.c != -1 || lbase == nil || !lenCallOf(lbase, list) {
+			continue
+		}
+		// the taken edge leaves with an error
+		leaves := false
+		for _, ins := range b.Succs[0].Instrs {
+			if r, ok := ins.(*ssa.Return); ok && len(r.Results) > 0 && !isNilConst(r.Results[len(r.Results)-1]) {
+				leaves = true
+			}
+		}
+		if !leaves {
+			continue
+		}
+		// the loop's exit dominates `at`, its body does not
+		H := ph.Block()
+		if b.Dominates(at.Block()) || !H.Dominates(at.Block()) {
+			continue
+		}
+		for _, sc := range H.Succs {
+			if sc.Dominates(at.Block()) && !sc.Dominates(b) {
+				return true
+			}
+		}
+		// rotated loops: the exit is a successor of the body's last block
+		for _, blk := range fn.Blocks {
+			if H.Dominates(blk) {
+				for _, sc := range blk.Succs {
+					if !H.Dominates(sc) || sc == H {
+						continue
+					}
+					if sc.Dominates(at.Block()) && !sc.Dominates(b) && !b.Dominates(sc) {
+						return true
+					}
+				}
+			}
+		}
+	}
+	return false
 }
